@@ -8,7 +8,7 @@ from pvmon.props.common import suite_cases, run_suite_case, rng_for, run_pipeflo
 MANIFEST = {'text': 'Held on every returned pipeflow of the seeded workload: nodal and global mass balances rebuilt from the user tables are at round-off (1e-16..1e-13 kg/s observed) for all component kinds, label schemes and solver configurations exercised; exploration is the honest level because the quantifier ranges over all networks.', 'note': "Trusts the monitor's own incidence reconstruction (pi valves insert a virtual node) and the 1e-10 relative bound; nets the generator does not produce are not covered.", 'technique': 'runtime monitoring: conservation oracle over result tables after every real pipeflow on generated networks'}
 
 RULE = ("seeded random gas/water networks (tree + chords, parallel branches, ju/pi valves, pumps, compressors, "
-        "flow/pressure controllers, heat exchangers, storages, several ext grids, circulation-pump loops with make-up ext grids and leaks, islands, out-of-service "
+        "flow/pressure controllers, heat exchangers, storages, several ext grids, circulation-pump loops with make-up ext grids and leaks, transient heat time series with load profiles (every step monitored through hook H1), islands, out-of-service "
         "elements, five index-label schemes) built through the public create_* API and solved by the real "
         "pipeflow under a random solver configuration (numba on/off, 3 friction models, constant alpha 1/0.3/0.7 "
         "or automatic damping, default or tight tolerances); a case is non-trivial when the run returned and at "
@@ -22,7 +22,7 @@ CONFIG = {
 }
 REQUIRED_COUNTERS = ["balances_junction_deg>=3", "balances_virtual_pi_valve_node", "global_balances",
                      "runs_gas", "runs_liquid", "runs_numba", "runs_numpy", "runs_alpha_lt_1",
-                     "runs_automatic", "runs_circulation_pump_loop", "runs_ext_grid_in_pump_loop"]
+                     "runs_automatic", "runs_circulation_pump_loop", "runs_ext_grid_in_pump_loop", "transient_steps_monitored"]
 
 FEATURE_SETS = [
     (), ("valves",), ("valves", "pi_valves", "closed"), ("pump", "compressor", "valves"),
@@ -35,6 +35,21 @@ LABELS = ["contiguous", "shuffled", "gaps", "large", "mixed"]
 FLUIDS = ["water", "water", "lgas", "hgas", "hydrogen", "methane"]
 
 
+_LIVE = {"obs": None}
+
+
+def worker_init(ctx):
+    # transient time series: the balance monitor rides on every pipeflow of the series through hook H1
+    import pandapipes._verif as v
+
+    def sink(ev, p):
+        obs = _LIVE["obs"]
+        if obs is not None and ev == "exit" and p["exc"] is None:
+            mon_c01(p["net"], obs)
+            obs.count("transient_steps_monitored")
+    v.register(sink)
+
+
 def gen_cases(tier, seed):
     cfg = CONFIG[tier]
     cases = []
@@ -42,6 +57,8 @@ def gen_cases(tier, seed):
         cases.append({"seed": seed, "i": i, "fluid": FLUIDS[i % len(FLUIDS)],
                       "features": list(FEATURE_SETS[(i // len(FLUIDS)) % len(FEATURE_SETS)]),
                       "labels": LABELS[(i // 7) % len(LABELS)], "n": None})
+        if i % 40 == 7:
+            cases.append({"seed": seed, "i": 3 * 10 ** 6 + i, "transient": True, "fluid": "water", "features": [], "labels": "contiguous", "n": None})
         if i % 6 == 5:
             cases.append({"seed": seed, "i": 2 * 10 ** 6 + i, "loop": True, "fluid": "water", "features": [], "labels": LABELS[(i // 6) % len(LABELS)], "n": None})
     for k in range(cfg.get("large", 0)):
@@ -83,7 +100,40 @@ def make(case):
     return spec, opts
 
 
+def run_transient(case, obs):
+    """A transient heat time series (the internal tables are re-used from step to step) with load profiles."""
+    import pandas as pd
+    from pandapower.control import ConstControl
+    from pandapower.timeseries import DFData
+    from pandapipes.timeseries import run_timeseries
+    rng = rng_for("C01t", case["seed"], case["i"])
+    spec = netgen.gen_thermal_mesh(rng, two_feeders=False, max_sections=2)
+    net = netgen.build(spec)
+    steps = int(rng.integers(3, 6))
+    if len(net.sink):
+        df = pd.DataFrame({int(i): rng.uniform(0.2, 1.5, steps) for i in net.sink.index})
+        ConstControl(net, "sink", "mdot_kg_per_s", list(net.sink.index), profile_name=list(df.columns), data_source=DFData(df))
+    _LIVE["obs"] = obs
+    try:
+        run_timeseries(net, time_steps=range(steps), mode=str(rng.choice(["sequential", "bidirectional"])), transient=True, dt=float(rng.choice([60, 300])),
+                       iter=100, verbose=False, use_numba=bool(rng.random() < 0.5), continue_on_divergence=True)
+        obs.count("transient_series")
+    except Exception as e:
+        obs.count("transient_series_raised_" + type(e).__name__)
+    finally:
+        _LIVE["obs"] = None
+    return spec
+
+
 def run_case(case, ctx):
+    if case.get("transient"):
+        obs = Obs()
+        spec = run_transient(case, obs)
+        n = obs.counters.get("transient_steps_monitored", 0)
+        rec = {"nontrivial": n >= 2 and obs.counters.get("balances_nonzero_flow", 0) > 0,
+               "sample": {"case": case, "net": netgen.spec_summary(spec), "transient_steps_monitored": n}, "evaluations": max(n, 1)}
+        rec.update(obs.record())
+        return rec
     if case.get("kind") == "repo_suite":
         obs = Obs()
         n = run_suite_case(case, "C01", obs)
